@@ -101,6 +101,29 @@ for _c in LATTICE_CLASSES:
     CAT_CLASS["r" + _c] = _c
 
 
+# Constness: parameter categories that need a NON-const object, and const-wrapped instances
+# (what Python gets from a published method returning `const T *` / `const T &`).
+for _k, _t, _cls, _tag in [
+        ("cpa", "const VA *", "VA", "_tag"), ("nra", "VA &", "VA", "_tag"), ("va", "VA", "VA", "_tag"),
+        ("cpb", "const VB *", "VB", "_tag"), ("nrb", "VB &", "VB", "_tag"), ("rb", "const VB &", "VB", "_tag"),
+        ("vb", "VB", "VB", "_tag"),
+        ("mpL1", "L1 *", "L1", "_tag_ls"), ("nrL1", "L1 &", "L1", "_tag_ls"), ("vL1", "L1", "L1", "_tag_ls"),
+        ("mpk", "VK *", "VK", "_tag"), ("nrk", "VK &", "VK", "_tag")]:
+    if _t.endswith("*"):
+        CATS[_k] = (_t, None, ".op({p} ? &{p}->%s : nullptr)" % _tag)
+        PTR_CATS = PTR_CATS + (_k,)
+    else:
+        CATS[_k] = (_t, None, ".o({p}.%s)" % _tag)
+        REF_CATS = REF_CATS + (_k,)
+    CAT_CLASS[_k] = _cls
+CAT_CLASS["rk"] = "VK"
+NONCONST_CATS = ("pa", "pb", "pc", "nra", "nrb", "mpL1", "nrL1", "mpk", "nrk")
+INSTANCE["VK"] = "VK"
+BASES["VK"] = ("VK",)
+CONST_INSTANCE = {"cVA": "VA", "cVB": "VB", "cL1": "L1", "cVK": "VK"}
+CONST_VALUES = ["VA", "VB", "cVA", "cVB", "L1", "cL1", "LR", "VK", "cVK", "VC", "0", "None", "object"]
+
+
 def classify(cat, v):
     """How Python value code v relates to a parameter of category cat:
     EXACT   corresponds (int->integer type in range, float->floating, str->string,
@@ -149,6 +172,14 @@ def classify(cat, v):
         if cat in CAT_CLASS:
             return "EXACT" if CAT_CLASS[cat] in BASES[v] else "NO"
         return "GREY" if cat == "b" else "NO"
+    if v in CONST_INSTANCE:
+        # a const object binds to const pointers / const references / by-value parameters of
+        # its class or a base; a parameter that needs a non-const object refuses it, as in C++
+        if cat in CAT_CLASS:
+            if cat in NONCONST_CATS:
+                return "NO"
+            return "EXACT" if CAT_CLASS[cat] in BASES[CONST_INSTANCE[v]] else "NO"
+        return "GREY" if cat == "b" else "NO"
     if v == "object":
         return "GREY" if cat == "b" else "NO"
     raise ValueError(v)
@@ -176,11 +207,13 @@ def ctype_of(v, cats_here):
         if len(ss) != 1:
             return None
         return ss[0]
-    if v in INSTANCE:
+    if v in INSTANCE or v in CONST_INSTANCE:
         ptr = any(c in PTR_CATS for c in cats_here)
         ref = any(c in REF_CATS for c in cats_here)
         if ptr == ref:
             return None
+        if v in CONST_INSTANCE:
+            return ("cp" if ptr else "cr") + CONST_INSTANCE[v]
         return ("p" if ptr else "r") + (v[1] if v[0] == "V" else v)
     return None
 
@@ -266,7 +299,59 @@ KNOWN_SHAPES = {
 }
 
 
+KNOWN_SHAPES["coerce-into-nonconst-param"] = (
+    "dispatch/coerce-into-nonconst-param",
+    "call runs on a copy/temporary: a const wrapper or an int is coerced (Dtool_Coerce_T) into a "
+    "non-const T&/T* parameter that C++ refuses to bind; ledger balanced")
+KNOWN_SHAPES["const-arg-copied-by-coercion"] = (
+    "dispatch/const-arg-copied-by-coercion",
+    "right overload and values, but the const wrapper passed for const T& reaches C++ as a copy "
+    "(@tmp) instead of the wrapped object; ledger balanced")
+_FNIDX = __import__("re").compile(r"#(\d+)c?\(")
+_TEMPCTOR = __import__("re").compile(r"^(\w+)::\1#\w+\(@tmp[;)]")
+
+
+def _coercion_shape(a, f):
+    """Deviations rooted in Dtool_Coerce_T being used for every pointer/reference parameter of
+    a class with a coercion constructor (VK), whatever the constness of the parameter."""
+    o = f.get("observed") or {}
+    if o.get("exc") is not None or f.get("ledger_before") != f.get("ledger_after") or f.get("ledger_errors"):
+        return None
+    calls = [c for c in (o.get("calls") or []) if not _TEMPCTOR.match(c)]
+    if a["kind"] in ("ctor", "coerce"):
+        # the constructed object itself is labelled @tmp: its constructor entry may have been
+        # set aside with the temporaries
+        calls = [c for c in (o.get("calls") or []) + (o.get("temp_ctor_calls") or [])
+                 if not c.startswith("VK::")]
+    if len(calls) != 1 or "@tmp" not in calls[0]:
+        return None
+    m = _FNIDX.search(calls[0])
+    tup = f.get("tup") or []
+    if not m or int(m.group(1)) >= len(a["ovs"]):
+        return None
+    ov = a["ovs"][int(m.group(1))]
+    for pos, cat in enumerate(ov["ps"][:len(tup)]):
+        if cat in ("mpk", "nrk") and (tup[pos] == "cVK" or tup[pos] in INT_VALUE):
+            return "coerce-into-nonconst-param"
+    exp = f.get("expected")
+    if isinstance(exp, dict) and "cVK" in tup:
+        want = list(exp.get("calls") or [])
+        for pos, v in enumerate(tup):
+            if v == "cVK":
+                want = [c.replace("@a%d" % pos, "@tmp") for c in want]
+        if want == (o.get("calls") or []):
+            return "const-arg-copied-by-coercion"
+    return None
+
+
 def known_shape(a, f):
+    sh = _coercion_shape(a, f)
+    if sh:
+        return sh
+    return _range_shape(a, f)
+
+
+def _range_shape(a, f):
     """Shape of a recorded finding, or None.  Both shapes: OverflowError is due for an
     out-of-range integer, a TypeError is raised instead, nothing ran, ledger unchanged."""
     o = f.get("observed") or {}
@@ -323,6 +408,7 @@ __published:
   VA(const VA &copy);
   ~VA();
   int vt_id() const;
+  const VA *vt_cptr() const;
 public:
   VtTag _tag;
 };
@@ -331,6 +417,7 @@ __published:
   VB();
   VB(const VB &copy);
   int vt_idb() const;
+  const VB &vt_cref() const;
 };
 class VC {
 __published:
@@ -355,6 +442,7 @@ __published:
   VK(const VK &copy);
   ~VK();
   int vt_id() const;
+  const VK *vt_cptr() const;
 public:
   VtTag _tag;
   int _v;
@@ -379,9 +467,11 @@ VA::VA() : _tag("VA") {}
 VA::VA(const VA &copy) : _tag(copy._tag) {}
 VA::~VA() {}
 int VA::vt_id() const { return _tag.use(); }
+const VA *VA::vt_cptr() const { return this; }
 VB::VB() { _tag.relabel("VB"); }
 VB::VB(const VB &copy) : VA(copy) { _tag.relabel("VB"); }
 int VB::vt_idb() const { return _tag.use(); }
+const VB &VB::vt_cref() const { return *this; }
 VC::VC() : _tag("VC") {}
 VC::VC(const VC &copy) : _tag(copy._tag) {}
 VC::~VC() {}
@@ -395,6 +485,7 @@ VK::VK(int v) : _tag("VK"), _v(v) { vt::T t("VK::VK#int"); t.o(_tag).i(v); t.ret
 VK::VK(const VK &copy) : _tag(copy._tag), _v(copy._v) {}
 VK::~VK() {}
 int VK::vt_id() const { return _tag.use(); }
+const VK *VK::vt_cptr() const { return this; }
 VX::VX() : _tag("VX"), _v(-7) {}
 VX::VX(int v) : _tag("VX"), _v(v) { vt::T t("VX::VX#int"); t.o(_tag).i(v); t.ret_v(); }
 VX::VX(const VX &copy) : _tag(copy._tag), _v(copy._v) {}
@@ -414,6 +505,9 @@ def _lattice_src():
                      % (c, c, c.lower(), c, c, c.lower(), c.lower()))
         else:
             t.append("%s::%s() {}\n" % (c, c))
+        if c == "L1":
+            h.append("  const L1 &vt_cref() const;\n")
+            t.append("const L1 &L1::vt_cref() const { return *this; }\n")
         h.append("};\n")
     return "".join(h), "".join(t)
 
@@ -525,6 +619,18 @@ def _targ(code, k):
         return None, "a->s[%d]" % k, "const char *"
     if code == "S":
         return "std::string x%d(a->s[%d]);" % (k, k), "x%d" % k, "std::string &"
+    if code[:2] in ("cp", "cr"):
+        cls = code[2:]
+        decl = "const %s x%d;" % (cls, k)
+        if cls in LATTICE_ROOTS:
+            for r in LATTICE_ROOTS[cls]:
+                decl += (' vt::trace_append("#a%d.%s=" + std::to_string(x%d._tag_%s.id));'
+                         % (k, r, k, r.lower()))
+        else:
+            decl += ' vt::trace_append("#a%d=" + std::to_string(x%d._tag.id));' % (k, k)
+        if code[1] == "p":
+            return decl, "&x%d" % k, "const %s *" % cls
+        return decl, "x%d" % k, "const %s &" % cls
     if code[0] in "pr" and code[1] == "L":
         cls = code[1:]
         decl = "%s x%d;" % (cls, k)
@@ -534,7 +640,7 @@ def _targ(code, k):
         if code[0] == "p":
             return decl, "&x%d" % k, "%s *" % cls
         return decl, "x%d" % k, "%s &" % cls
-    if code[0] in "pr" and code[1] in "ABCM":
+    if code[0] in "pr" and code[1] in "ABCMK":
         cls = "V" + code[1]
         if code[1] == "M":
             decl = ('VM x%d; vt::trace_append("#a%d.A=" + std::to_string(x%d.VA::_tag.id)); '
@@ -661,6 +767,8 @@ def typings_of(a, values):
 def values_for(a, tier):
     if a["fam"].startswith("lattice"):
         return LATTICE_VALUES
+    if a["fam"].startswith("constarg"):
+        return CONST_VALUES
     mx = max_args(a)
     if mx >= 2 and tier == "quick":
         return VALUES_QUICK2
@@ -813,6 +921,39 @@ def lattice_sets(add, kinds, thorough):
             j += 1
 
 
+def constarg_sets(add, thorough):
+    """Const-wrapped arguments x overload sets over {T*, const T*, T&, const T&, T by value}
+    (same class in both declaration orders, base/derived combinations, an unrelated overload
+    next to a non-const one), as methods and as free functions."""
+    singles = ["pa", "cpa", "nra", "ra", "va", "pb", "cpb", "nrb", "rb", "vb",
+               "mpL1", "pL1", "nrL1", "rL1", "vL1", "mpk", "nrk", "rk"]
+    pairs = [("pa", "cpa"), ("cpa", "pa"), ("nra", "ra"), ("ra", "nra"),
+             ("pb", "cpb"), ("cpb", "pb"), ("nrb", "rb"), ("rb", "nrb"),
+             ("mpL1", "pL1"), ("pL1", "mpL1"), ("nrL1", "rL1"), ("rL1", "nrL1"),
+             ("pa", "cpb"), ("cpa", "pb"), ("cpa", "cpb"), ("nra", "rb"), ("ra", "nrb"),
+             ("nra", "nrb"), ("ra", "rb"), ("va", "rb"), ("va", "nrb"), ("vb", "ra"), ("vb", "nra"),
+             ("mpL1", "pLR"), ("nrL1", "rLR"), ("vL1", "rLR"),
+             ("nrk", "rk"), ("rk", "nrk"),
+             ("pa", "i"), ("nra", "s"), ("pb", "d"), ("nrb", "i"), ("nrk", "s"), ("mpk", "d"),
+             ("mpL1", "i"), ("nrL1", "s")]
+    triples = [("pa", "cpa", "pb"), ("nra", "ra", "nrb"), ("ra", "nrb", "rb"), ("cpa", "pb", "cpb"),
+               ("nrL1", "rL1", "rLR"), ("mpL1", "pL1", "pLR"), ("nra", "ra", "i")]
+    kinds = ("meth", "free") if not thorough else ("meth", "free", "static", "ctor")
+    for c in singles:
+        for k in kinds:
+            add(k, [make_ov([c])], "constarg-1")
+    for cs in pairs:
+        for k in kinds:
+            add(k, [make_ov([c]) for c in cs], "constarg-2")
+    for cs in triples:
+        for k in kinds:
+            add(k, [make_ov([c]) for c in cs], "constarg-3")
+    # arity 2: the const argument in the second position, keyword calls included
+    for cs in ([["i", "nra"], ["i", "ra"]], [["pa", "i"], ["cpa", "i"]], [["s", "nrb"], ["s", "rb"]]):
+        for k in kinds[:2]:
+            add(k, [make_ov(c) for c in cs], "constarg-a2")
+
+
 def enumerate_atoms(tier):
     """Canonical, deterministic list of overload sets for the tier (simplest first)."""
     atoms = []
@@ -866,6 +1007,7 @@ def enumerate_atoms(tier):
         coerce_sets(add)
         oper_sets(add_oper, False)
         lattice_sets(add, kinds, False)
+        constarg_sets(add, False)
         # arity 1 vs arity 2 with default (count overlap resolved by category / derivation)
         j = 0
         for c1, c2 in itertools.permutations(["i", "d", "s", "pa", "pb"], 2):
@@ -898,6 +1040,7 @@ def enumerate_atoms(tier):
     coerce_sets(add)
     oper_sets(add_oper, True)
     lattice_sets(add, kinds, True)
+    constarg_sets(add, True)
     # size 3 over arity <= 1 without defaults, every call convention
     plain = [s for s in sigs1 if not s["nd"] and s["ps"]]
     for trio in itertools.combinations(plain, 3):
